@@ -228,7 +228,13 @@ ATOMS = ["A", "abc", '"x"', '"a b"', "1", "-2", "1.5", "true", "null", "$V", "1.
          "MIN_LENGTH[-1]", "MAX_LENGTH[]", "APPEND_ONLY", "NEVER[X]", "FOO[]", "A<q>", "\u00a7SELF", "\u00a7INDEXER", "\u00a71",
          "[a,b]", "[]", "[k::v]", "[[1]]", "FIELD[A]::REQ", "FIELD[A]::", "FIELD[]::REQ", "FIELD::REQ", "FIELD[A B]::REQ\u2227ENUM[A,B]",
          "FIELD[A]::REQ\u2227REQ", "FIELD[A]::ENUM[A]\u2227CONST[B]", "FIELD[a-b]::OPT", "FIELD[A]::REGEX[\"(\"]", "FIELD[A]::RANGE[x,y]",
-         "FIELD[A]::TYPE[Q]", "FIELD[A]::MAX_LENGTH[q]", "FIELD[A]::\u2227", "FIELD[A]::REQ\u2192\u00a7T"]
+         "FIELD[A]::TYPE[Q]", "FIELD[A]::MAX_LENGTH[q]", "FIELD[A]::\u2227", "FIELD[A]::REQ\u2192\u00a7T",
+         # arguments that make a LIBRARY call fail with an exception class of its own (re.compile: OverflowError for a huge
+         # repetition count, RecursionError for deep nesting; int / float conversions; huge widths)
+         'REGEX["a{99999999999999999999}"]', 'REGEX["a{4294967296}"]', 'REGEX["' + "(" * 300 + ")" * 300 + '"]', 'REGEX["(?P<n>a)(?P<n>b)"]',
+         'REGEX["\\\\"]', 'REGEX["[z-a]"]', 'REGEX["(?"]', 'FIELD[A]::REGEX["a{99999999999999999999}"]',
+         "RANGE[1e999,5]", "RANGE[-1e999,1e999]", "RANGE[nan,1]", "RANGE[" + "9" * 400 + ",1]", "MAX_LENGTH[" + "9" * 400 + "]",
+         "MAX_LENGTH[1e9]", "MIN_LENGTH[1.5]", "MAX_LENGTH[-0]", "CONST[1e999]", "ENUM[1e999,nan]", "DATE[x]", "ISO8601[1]"]
 OPS = ["\u2227", "\u2192", "\u2228", "\u2295", ",", "::", " ", "vs", "@", "~", "\u2192\u00a7"]
 KEYS = ["TYPE", "VERSION", "STATUS", "CONTRACT", "K", "NAME", "ID", "FIELDS", "POLICY", "UNKNOWN_FIELDS", "TARGETS", "META", "RISKS",
         "TESTS", "DEPS", "CI", "DECISIONS", "PATTERN", "REGEX", "ENUM", "TYPE", "SKILL", "TEST_HOLOGRAPHIC", "DEBATE_TRANSCRIPT",
@@ -728,14 +734,7 @@ def _classify_tool(tool, args, exc, frames, setup=None):
             site = fr
     try:
         # (no clause for octave_eject(format=json): C20-eject-json-holographic / -nested-meta were repaired by 88905cd)
-        # compile_gbnf_from_meta(meta) with META.CONTRACT present and META.TYPE not a string
-        if ((tool == "octave_eject" and args.get("format") == "gbnf") or
-            (tool == "octave_compile_grammar" and args.get("format", "gbnf") == "gbnf")) and isinstance(content, str) \
-                and isinstance(exc, (TypeError, AttributeError)) and site is not None and "compile_gbnf_from_meta(doc.meta)" in site[3] \
-                and frames[-1][0] == "core/gbnf_compiler.py" and frames[-1][1] == "compile_schema" and "schema.name" in frames[-1][3]:
-            meta = ps.parse(content).meta or {}
-            if "CONTRACT" in meta and not isinstance(meta.get("TYPE", "UNKNOWN"), str):
-                return "C20-gbnf-contract-nonstring-type"
+        # (no clause for compile_gbnf_from_meta with a non-string META.TYPE: repaired by 61337a1)
         # Path.exists() outside any try: ENAMETOOLONG is not one of the errnos pathlib swallows
         pth = args.get("target_path") if tool == "octave_write" else args.get("file_path")
         if tool in ("octave_write", "octave_validate") and isinstance(exc, OSError) and exc.errno == 36 and site is not None \
